@@ -16,7 +16,7 @@ PLAIN_TOPICS = ('a', 'b', 'c', 'd', 'e', 'g', 'h', 'k', 'topic', '/cmd_vel', '/n
                 'a/b/c', '/r2/d2', 'bumper')
 KW_PREFIX_TOPICS = ('nothing', 'someone', 'afterburner', 'untilx', 'order', 'asset', 'notable', '/nothing',
                     'within2', 'causesx', 'globally_', 'to/from')
-ALIASES = ('A', 'B', 'C', 'M', 'Msg', 'prev', 'm1')
+ALIASES = ('A', 'B', 'C', 'M', 'Msg', 'prev', 'm1', 'BA', 'aM')  # 'BA'/'A' and 'aM'/'M': one name is a suffix of another
 KW_PREFIX_ALIASES = ('Estimate', 'orderly', 'assets', 'inside', 'notably', 'Total')
 BOUND_VARS = ('i', 'j', 'k', 'n', 'e1', 'elem')
 NUM_TEXTS = ('0', '1', '2', '3', '10', '0.5', '0.25', '1.5', '100', '7', '1e3', '2.5E-2', '.5', '1.',
